@@ -243,7 +243,18 @@ def gotran_to_myokit(ode: ODE, time_component="engine", time_unit="s") -> myokit
         return unit.replace("**", "^")
 
     # First we need to add all variables to the model
-    global_var_map = {sp.Symbol("time"): sp.Symbol(f"{time_component}.time")}
+    # Keyed by name: the symbols of a model loaded from an .ode file carry assumptions
+    # (real, finite), those of an imported model do not, and they must all be found
+    global_var_map = {
+        "time": sp.Symbol(f"{time_component}.time"),
+        "t": sp.Symbol(f"{time_component}.time"),
+    }
+
+    def qualified(expr: sp.Expr) -> sp.Expr:
+        return expr.xreplace(
+            {s: global_var_map[s.name] for s in expr.free_symbols if s.name in global_var_map}
+        )
+
     for component in ode.components:
         if component.name == time_component:
             comp = model[time_component]
@@ -254,18 +265,18 @@ def gotran_to_myokit(ode: ODE, time_component="engine", time_unit="s") -> myokit
             state = state_derivative.state
             var = comp.add_variable(state.name)
             var.set_unit(to_myokit_unit(state.unit_str))
-            global_var_map[sp.Symbol(state.name)] = sp.Symbol(var.qname())
+            global_var_map[state.name] = sp.Symbol(var.qname())
 
         for parameter in component.parameters:
             var = comp.add_variable(parameter.name)
             var.set_unit(to_myokit_unit(parameter.unit_str))
             var.set_rhs(parameter.value)
-            global_var_map[sp.Symbol(parameter.name)] = sp.Symbol(var.qname())
+            global_var_map[parameter.name] = sp.Symbol(var.qname())
 
         for intermediate in component.intermediates:
             var = comp.add_variable(intermediate.name)
             var.set_unit(to_myokit_unit(intermediate.unit_str))
-            global_var_map[sp.Symbol(intermediate.name)] = sp.Symbol(var.qname())
+            global_var_map[intermediate.name] = sp.Symbol(var.qname())
 
     sympy_reader = myokit.formats.sympy.SymPyExpressionReader(model=model)
     # Then we can add expressions
@@ -276,14 +287,14 @@ def gotran_to_myokit(ode: ODE, time_component="engine", time_unit="s") -> myokit
             state = state_derivative.state
             v = comp[state.name]
 
-            expr = state_derivative.expr.xreplace(global_var_map)
+            expr = qualified(state_derivative.expr)
             expr = sympy_reader.ex(expr)
             v.set_rhs(expr)
             v.promote(state.value)
 
         for intermediate in component.intermediates:
             v = comp[intermediate.name]
-            expr = intermediate.expr.xreplace(global_var_map)
+            expr = qualified(intermediate.expr)
             expr = sympy_reader.ex(expr)
             v.set_rhs(expr)
 
